@@ -207,7 +207,7 @@ def value_hom(chk, facts):
             n += 1
             chk.ob(rule, "closure:%s" % jv, want in got, "JSON %s -> %s -> ExprKind::%s -> back to %s; required to contain %s" % (jv, c, k, got, want),
                    where=g.where() if g else None, key="%s:closure:%s" % (rule, jv), sample={"json": jv, "via": c, "back": got})
-    chk.floor(rule, "arms and closures", n, 27)
+    chk.floor(rule, "arms and closures", n, 25)
 
 
 def entity_fields(chk, facts):
